@@ -392,8 +392,8 @@ def holds (r : RunPc) : Bool := r.lockW || r.lockR
 
 /-- remaining work of `Run`'s critical section (`n` members, `wl` registered waiters) -/
 def csMeasure (n wl : Nat) : RunPc → Nat
-  | .ubRead i _ => (n + 1 - i) + (n + 2) + 2 * wl + 2
-  | .ubSel i _ _ => (n + 1 - i) + 2 * wl + 2
+  | .ubRead i _ _ => (n + 1 - i) + (n + 2) + 2 * wl + 2
+  | .ubSel i _ _ _ => (n + 1 - i) + 2 * wl + 2
   | .nCheck _ _ => 2 * wl + 2
   | r => mu r
 
@@ -407,11 +407,11 @@ theorem holds_frame {v s a s'} (hA : InvA s) (hs : step v s a = some s') (ha : R
 theorem holds_enabled {v s} (hn : v.nbNotify = true) (hA : InvA s) (cf : ∀ c, connFree s c = true)
     (hr : holds s.run = true) : ∃ a, RunAct a = true ∧ (step v s a).isSome = true := by
   cases hrun : s.run with
-  | ubRead i seqs =>
+  | ubRead i seqs rts =>
     refine ⟨.ubRead, rfl, ?_⟩
     simp only [step, hrun, cf i, if_true]
     split <;> simp
-  | ubSel i seqs acc =>
+  | ubSel i seqs rts acc =>
     by_cases hi : i < s.heads.length
     · refine ⟨.ubSel, rfl, ?_⟩
       simp only [step, hrun, hi, cf i, if_true]
